@@ -214,7 +214,9 @@ class Evaluator:
             env = dict(env)
             for d in st.get("c", []):
                 if d.get("k") == "VarDecl":
-                    if d.get("c") and d.get("w"):
+                    if d.get("c") and not d.get("w") and (d.get("ct") or d.get("t") or "").rstrip().endswith(("*", "*const")):
+                        env[d["d"]] = self._pointer(fn, d["c"][0], env, depth)
+                    elif d.get("c") and d.get("w"):
                         vs = self._expr(fn, d["c"][0], env, depth)
                         if len(vs) != 1:
                             raise Unsupported("forking initialiser")
@@ -555,6 +557,43 @@ class Evaluator:
             raise Unsupported("subscript of a non-input array %s" % show(base))
         return [({}, v)]
 
+    def _pointer(self, fn, a, env, depth):
+        """("ptr", base array node, constant offset) for a pointer/reference-valued expression:
+        arr, arr + k, arr.data() + k, &arr[k], p (a pointer already bound), p + k."""
+        b = strip_all(a)
+        off = 0
+        while True:
+            if b is not None and b.get("k") == "BinaryOperator" and b.get("op") == "+":
+                kv = self._expr(fn, b["c"][1], env, depth)[0][1].value()
+                if kv is None:
+                    raise Unsupported("non-constant pointer offset")
+                off += kv
+                b = strip_all(b["c"][0])
+                continue
+            if b is not None and b.get("k") == "UnaryOperator" and b.get("op") == "&":
+                inner = strip_all(b["c"][0])
+                base = idx = None
+                if inner is not None and inner.get("k") == "ArraySubscriptExpr":
+                    base, idx = inner["c"][0], inner["c"][1]
+                elif inner is not None and inner.get("k") == "CXXOperatorCallExpr" and inner.get("op") == "[]":
+                    base, idx = inner["c"][1], inner["c"][2]
+                if base is not None:
+                    kv = self._expr(fn, idx, env, depth)[0][1].value()
+                    if kv is None:
+                        raise Unsupported("non-constant index under &")
+                    off += kv
+                    b = strip_all(base)
+                    continue
+            break
+        if b is not None and b.get("k") == "CXXMemberCallExpr":
+            cal = strip(b["c"][0])
+            if cal and cal.get("n") == "data" and cal.get("c"):
+                b = strip_all(cal["c"][0])
+        if b is not None and b.get("k") == "DeclRefExpr" and isinstance(env.get(b["d"]), tuple):
+            tag, bn, bo = env[b["d"]]
+            return ("ptr", bn, bo + off)
+        return ("ptr", b, off)
+
     def _call(self, fn, n, env, depth):
         if depth >= self.max_inline:
             raise Unsupported("inline depth")
@@ -572,23 +611,7 @@ class Evaluator:
             pt = p.get("ct") or p.get("t") or ""
             if "*" in pt or "&" in pt and not p.get("w"):
                 # pointer/reference to an input array (+ constant offset)
-                b = strip_all(a)
-                off = 0
-                while b is not None and b.get("k") == "BinaryOperator" and b.get("op") == "+":
-                    kv = self._expr(fn, b["c"][1], env, depth)[0][1].value()
-                    if kv is None:
-                        raise Unsupported("non-constant pointer offset in argument")
-                    off += kv
-                    b = strip_all(b["c"][0])
-                if b is not None and b.get("k") == "CXXMemberCallExpr":
-                    cal = strip(b["c"][0])
-                    if cal and cal.get("n") == "data" and cal.get("c"):
-                        b = strip_all(cal["c"][0])
-                if b is not None and b.get("k") == "DeclRefExpr" and isinstance(env.get(b["d"]), tuple):
-                    tag, bn, bo = env[b["d"]]
-                    cenv[p["d"]] = ("ptr", bn, bo + off)
-                else:
-                    cenv[p["d"]] = ("ptr", b, off)
+                cenv[p["d"]] = self._pointer(fn, a, env, depth)
                 continue
             vs = self._expr(fn, a, env, depth)
             if len(vs) != 1:
